@@ -32,3 +32,4 @@ func verifAtomCount() int                      { return 0 }
 func verifAtomIs(i int, name string) bool      { return false }
 func verifAtomNArgs(i int) int                 { return 0 }
 func verifAtomArg(i, k int, v any) bool        { return false }
+func verifAssertCanBe(b bool, msg string) {}
